@@ -663,7 +663,19 @@ func (s *session) checkpoint(withDump bool) {
 	if s.db == nil {
 		return
 	}
+	segsDurable = nil
+	if s.stream == "ploss" {
+		s.plossImages(s.sim.JournalLen()) // bring the durable image up to date
+		segsDurable = func(name string) int {
+			b, ok := s.pl.Durable.File(dbDir + "/" + name)
+			if !ok {
+				return -1
+			}
+			return len(b)
+		}
+	}
 	s.h.emit("segs %s", segsLine(s.db, s.readSeg))
+	segsDurable = nil
 	s.h.emit("dir %s handles=%d", dirLine(s.sim.Snapshot()), s.sim.OpenHandles())
 	if withDump {
 		s.h.emit("%s", dumpLine(s.db))
